@@ -390,6 +390,21 @@ def check_object_keys(chk):
         chk.note('C05.K: no csv.DictReader call found')
 
 
+def check_object_keys_sim(chk, rule='C05.K'):
+    """primary for C05.K: dataParseCSV evaluated (E6l) on concrete texts with ragged rows; csv.reader / csv.DictReader are exact host models -> True when decided OK"""
+    from .. import libsim
+    from ..lib import library_functions
+    libfuncs = {f.name: f for f in library_functions(chk.repo, rule)}
+    n, problems = libsim.run_parse_csv(chk.repo, libfuncs, rule)
+    lf = libfuncs['dataParseCSV']
+    if problems:
+        chk.bad(rule, lf.mod, lf.pyname, problems[0][1][:110], f'evaluation of dataParseCSV on {n} texts: {problems[0][1]} ({len(problems)} deviations)', node=lf.func)
+        return False
+    chk.ok(rule, f'dataParseCSV evaluated on {n} concrete texts (rows longer and shorter than the header, CRLF, quoted commas, null parts): every row is an object whose keys are '
+           f'exactly the header fields (strings); cells beyond the header are dropped, missing cells are null', count=n)
+    return True
+
+
 def check_failure_values(chk):
     from .c15 import check_failure_values as cfv
     cfv(chk, rule='C05.L')
@@ -409,7 +424,10 @@ def run(chk):
     chk.guard('C05.E', check_escape, chk)
     chk.guard('C05.V', check_value_domain, chk)
     chk.rule('C05.K', 'objects produced by the library have string keys only (no None rest key from csv.DictReader)')
-    chk.guard('C05.K', check_object_keys, chk)
+    if chk.guard('C05.K', check_object_keys_sim, chk):
+        chk.advisory('C05.K', check_object_keys, chk)
+    else:
+        chk.guard('C05.K', check_object_keys, chk)
     try:
         chk.guard('C05.L', check_failure_values, chk)
     except ImportError:
